@@ -21,7 +21,9 @@ JudgeDep(rec) ==
           <<rec.dirty_control.ok = rec.res.ok /\ (rec.res.ok => rec.dirty_control.ast = rec.res.ast),
             "UnmarshalControl into a value that already held relations does not give the field's own relations">>,
           <<rec.res.ok => (rec.kept_after.ok /\ rec.kept_after.ast = rec.res.ast),
-            "a value decoded earlier and kept changed when its receiver decoded another field">> >>)
+            "a value decoded earlier and kept changed when its receiver decoded another field">>,
+          <<rec.res.ok => (rec.independent.ok /\ rec.independent.ast = rec.res.ast),
+            "two parses of one text share state: editing the first value changed the second">> >>)
 
 \* ---- C05: render / re-parse fixpoint ------------------------------------------
 JudgeDepRT(rec) ==
@@ -34,6 +36,7 @@ JudgeDepRT(rec) ==
           <<rec.rt.back.ok => rec.rt.back.ast = rec.res.ast, "rendered form parses to a different value">>,
           <<rec.kept_after.ok /\ rec.kept_after.ast = rec.res.ast,
             "a value decoded earlier and kept no longer renders / parses to the same value after its receiver decoded another field">>,
+          <<rec.independent.ok /\ rec.independent.ast = rec.res.ast, "two parses of one text share state: editing the first value changed the second">>,
           <<rec.dirty_control.ok /\ rec.dirty_control.ast = rec.res.ast,
             "decoding the field into a value that already held relations gives another value than parsing it">>,
           <<pr.class # "reject", "rendered form is a malformed relationship field">>,
